@@ -44,4 +44,19 @@ TEXT = {
         "level": "Generated histories of lockup messages, time jumps and matured-lock sweeps on a real OsmosisApp (real blocks; every 10th history runs the 120-block sweep cycle for real); after every operation 14 query families, LockedDenom for every used duration +-1ns, module balance and owner balance + locked are compared with the model.",
         "note": "Trusted: the harness lock book; list queries are compared as sets (no order promised). Nine in ten histories trigger the sweep by calling the module's real EndBlocker with the height set to the next multiple of 120 instead of producing 120 blocks.",
     },
+    "C01": {
+        "technique": "runtime monitor: invariant-at-a-hook after every operation — withdraw-everything probes on discarded state branches (three exit orders), claimable-vs-balance comparison, computed dust bound; plus a differential direction layer on the exported LP-amount functions",
+        "level": "Generated multi-account histories on a real concentrated pool; after every operation every position is claimed and fully withdrawn on three discarded branches (all messages must succeed), claimable totals are compared with the reward accounts, the residue is compared with a computed rounding-dust bound valued at the price extremes seen; CalcAmount0/1Delta are compared with exact rationals for rounding direction.",
+        "note": "Trusted: the harness's exact walker (for the spread-dust bound), the chain driver's transaction semantics (cache context + recover). Positions bound by locks are not generated here (superfluid is C11). Incentive-account residue is observed but only its non-negativity (claims succeed) is a verdict.",
+    },
+    "C03": {
+        "technique": "runtime monitor: differential oracle (exact big.Rat piecewise-curve walker over the pool/all-ticks queries) + estimate-vs-execution and state-digest comparison around every swap; ulp-level differential check of the per-bucket swap functions",
+        "level": "Around every swap message of generated histories: estimates (pool manager and CL) on the same state with a digest of the CL/bank/pool-manager stores before and after, exact curve walk for the ideal amount, execution must equal the estimate, never beat the curve, and stay within a per-witness rounding bound; there-and-back on a discarded branch; ComputeSwapWithinBucket* compared with exact rationals (direction of every rounding).",
+        "note": "Trusted: the reference walker; bucket boundaries TickToSqrtPrice(t) are taken from the implementation (decided separately by C14). Observed and not a verdict: an exact-out swap may deliver one unit less than requested (it stops at a remainder <= 1e-18 and truncates); swaps stopped by the global price limit are partially filled.",
+    },
+    "C07": {
+        "technique": "runtime monitor: invariant-at-a-hook after every operation, from the pool / all-ticks / positions queries only",
+        "level": "After every operation of generated histories: active liquidity vs positions containing the tick, per-tick gross/net vs positions, stored tick set, price-vs-tick agreement per position (non-strict forms), empty-pool reset, position identity, depth query.",
+        "note": "Trusted: the workload's own record of positions (ids, owners, ranges from message responses).",
+    },
 }
